@@ -306,6 +306,54 @@ Proof.
   - simpl in H. apply andb_true_iff in H. destruct H as [Ho _]. rewrite step_history_finish by (apply ext_safe_is_history; exact Ho). reflexivity.
 Qed.
 
+(* the abstract machine respects pointwise equality of states *)
+Definition sst_eq (a b : sst) : Prop :=
+  feq (ss_comm a) (ss_comm b) /\
+  match ss_work a, ss_work b with Some x, Some y => feq x y | None, None => True | _, _ => False end /\
+  ss_fin a = ss_fin b.
+
+Lemma ss_on_ext t a b : (forall f g, feq f g -> feq (t f) (t g)) -> sst_eq a b -> sst_eq (ss_on t a) (ss_on t b).
+Proof.
+  intros Ht (Hc & Hw & Hf). unfold ss_on. destruct (ss_work a) as [x|] eqn:Ea, (ss_work b) as [y|] eqn:Eb; try contradiction.
+  - repeat split; simpl; auto.
+  - repeat split; simpl; auto. rewrite Ea, Eb. exact I.
+Qed.
+Lemma ss_commit_ext a b : sst_eq a b -> sst_eq (ss_commit a) (ss_commit b).
+Proof.
+  intros (Hc & Hw & Hf). unfold ss_commit. destruct (ss_work a) as [x|] eqn:Ea, (ss_work b) as [y|] eqn:Eb; try contradiction.
+  - repeat split; simpl; auto.
+  - repeat split; simpl; auto. rewrite Ea, Eb. exact I.
+Qed.
+Lemma ss_mk_ext a b (w : bool) : sst_eq a b -> forall fi, sst_eq (mkSst (ss_comm a) (if w then Some (ss_comm a) else None) fi) (mkSst (ss_comm b) (if w then Some (ss_comm b) else None) fi).
+Proof. intros (Hc & Hw & Hf) fi. destruct w; repeat split; simpl; auto. Qed.
+Lemma sp_set_ext p s f g : feq f g -> feq (sp_set p s f) (sp_set p s g).
+Proof. intros H q. unfold sp_set. destruct (name_eqb q p); auto. Qed.
+Lemma sp_clear_ext p f g : feq f g -> feq (sp_clear_below p f) (sp_clear_below p g).
+Proof. intros H q. unfold sp_clear_below. destruct (is_prefix p q); auto. Qed.
+
+Lemma sstep_ext a b o : sst_eq a b -> sst_eq (sstep a o) (sstep b o).
+Proof.
+  intro H. pose proof H as (Hc & Hw & Hf).
+  destruct o; cbn [sstep]; try exact H.
+  - exact (ss_mk_ext a b true H false).
+  - rewrite <- Hf. destruct (ss_fin a); [exact H|]. apply ss_on_ext; auto. intros f g. apply sp_clear_ext.
+  - rewrite <- Hf. destruct (ss_fin a); [exact H|].
+    pose proof (ss_commit_ext a b H) as (Hc' & _ & _). repeat split; simpl; auto.
+  - exact (ss_mk_ext a b false H false).
+  - rewrite <- Hf. exact (ss_mk_ext a b true H (ss_fin a)).
+  - destruct (is_apex p); [exact H|]. apply ss_on_ext; auto. intros f g. apply sp_set_ext.
+  - destruct (is_apex p); [exact H|]. apply ss_on_ext; auto. intros f g. apply sp_set_ext.
+  - destruct (is_apex p); [exact H|]. apply ss_on_ext; auto. intros f g. apply sp_set_ext.
+  - apply ss_on_ext; auto. intros f g. apply sp_clear_ext.
+  - apply ss_commit_ext. exact H.
+  - unfold ss_drop. rewrite <- Hf. exact (ss_mk_ext a b false H (ss_fin a)).
+Qed.
+
+Lemma fold_sstep_ext us : forall a b, sst_eq a b -> feq (ss_comm (fold_left sstep us a)) (ss_comm (fold_left sstep us b)).
+Proof.
+  induction us as [|o us IH]; intros a b H; [exact (proj1 H)|]. simpl. apply IH. apply sstep_ext. exact H.
+Qed.
+
 (* The delegation / alias state after the history is the state the zone file
    built, transformed by the operations -- computed without looking at the tree. *)
 Theorem ext_safe_history_state zs us : zone_file_only zs = true -> forallb ext_safe_op us = true ->
@@ -318,29 +366,15 @@ Proof.
   pose proof (sinv_finish j s' Hp) as Hs. set (sB := finish_build j s') in *.
   destruct (sinv_run _ [] j sB eq_refl Hs) as [_ [Hd1 Hd2] _].
   assert (Hx : xinv (mkSst (cspecial_at (s_comm sB)) None false) sB).
-  { destruct Hs as [Hb [Hc1 Hc2] Hw]. constructor; simpl; auto.
+  { assert (Hwn : s_work sB = None /\ s_fin sB = false).
+    { unfold sB, finish_build. destruct Hp as [Hpb Hpw _]. rewrite Hpb.
+      destruct (s_zf s'); [destruct (zf_build z); destruct b|]; simpl; auto. }
+    destruct Hwn as [Hwn Hfn]. destruct Hs as [Hb [Hc1 Hc2] Hw]. constructor; cbn [ss_comm ss_work ss_fin].
+    - exact Hb.
     - split; [exact Hc1|intro p; reflexivity].
-    - destruct (s_work sB) as [w|] eqn:Ew; [|exact I]. exfalso.
-      unfold sB, finish_build in Ew. destruct Hp as [Hpb Hpw _]. rewrite Hpb in Ew.
-      destruct (s_zf s'); [destruct (zf_build z); destruct b|]; simpl in Ew; discriminate.
-    - unfold sB, finish_build. destruct Hp as [Hpb _ _]. rewrite Hpb.
-      destruct (s_zf s'); [destruct (zf_build z); destruct b|]; reflexivity. }
+    - rewrite Hwn. exact I.
+    - exact Hfn. }
   destruct (xinv_run us j _ sB Hu Hx) as [Hw Hf]. split; [exact Hw|].
   intro p. rewrite Hf. unfold sp_final.
-  assert (Hext : forall us (a b : sst), feq (ss_comm a) (ss_comm b) ->
-            match ss_work a, ss_work b with Some x, Some y => feq x y | None, None => True | _, _ => False end ->
-            ss_fin a = ss_fin b -> feq (ss_comm (fold_left sstep us a)) (ss_comm (fold_left sstep us b))).
-  { clear. induction us as [|o us IH]; intros a b Hc Hw Hfi; [exact Hc|]. simpl. apply IH.
-    - destruct o; cbn [sstep]; try exact Hc; rewrite <- ?Hfi;
-        try (destruct (ss_fin a)); try (destruct (is_apex p)); try exact Hc;
-        unfold ss_on, ss_commit, ss_drop; destruct (ss_work a), (ss_work b); try contradiction; simpl; auto.
-    - destruct o; cbn [sstep]; try exact Hw; rewrite <- ?Hfi;
-        try (destruct (ss_fin a)); try (destruct (is_apex p)); try exact Hw;
-        unfold ss_on, ss_commit, ss_drop, sp_set, sp_clear_below; destruct (ss_work a), (ss_work b); try contradiction; simpl; auto;
-        try (intro q; rewrite ?Hw; try reflexivity; destruct (name_eqb q p); auto; destruct (is_prefix p q); auto);
-        try (intro q; apply Hc).
-    - destruct o; cbn [sstep]; try exact Hfi; rewrite <- ?Hfi;
-        try (destruct (ss_fin a)); try (destruct (is_apex p)); try exact Hfi;
-        unfold ss_on, ss_commit, ss_drop; destruct (ss_work a), (ss_work b); try contradiction; simpl; auto. }
-  apply Hext; simpl; auto. intro q. symmetry. apply Hd2.
+  apply fold_sstep_ext. split; [intro q; symmetry; apply Hd2|]. split; [exact I|reflexivity].
 Qed.
